@@ -192,9 +192,9 @@ func mergeShardViolations(res *core.Result) {
 // ---- world
 
 type world struct {
-	sb   *sandbox
-	mux  *http.ServeMux
-	col  *collector
+	sb      *sandbox
+	mux     *http.ServeMux
+	col     *collector
 	sockdir string
 
 	out        core.Outcomes
